@@ -28,7 +28,7 @@ LEVEL_NOTE = ("Tolerance 1e-6 relative to the largest contributing node (float32
 RULE = ("case = one world x 3 subgrids x 2000 positions (kinds: random nodes, per-level linear, linear in x,y,z over a flat bottom). Non-trivial: land faces contribute, positions "
         "on edges/rim and depths outside the level range are present; distinct by world parameters.")
 MANDATORY = ["positions_compared", "land_face_contributes", "depth_above_top_level", "depth_below_bottom_level", "depth_on_level", "edge_tie_positions", "rim_positions",
-             "packed_storage", "packed_with_different_scale_factors", "subgrid_pairs_compared", "scalar_values_compared", "linear_levels_exact", "linear3d_exact", "convexity_checked", "vtransform2", "e2e_displacements_checked", "e2e_scalar_values_checked"]
+             "packed_storage", "packed_with_different_scale_factors", "subgrid_pairs_compared", "scalar_values_compared", "linear_levels_exact", "linear3d_exact", "convexity_checked", "vtransform2", "e2e_displacements_checked", "e2e_scalar_values_checked", "consecutive_update_values_compared"]
 ASSUMPTIONS = ["add_offset of packed u/v is zero (the code documents that it ignores it)", "positions inside the valid region of every subgrid used"]
 TIMEOUT = {"quick": 900, "thorough": 3400}
 
@@ -186,7 +186,7 @@ def run_case(case: dict[str, Any], wd: Path) -> dict[str, Any]:
                 hc=float(rng.uniform(0, hmin)) if Vt == 1 else float(rng.choice([5.0, 20.0, 200.0])))
     packed = kind == "random" and rng.random() < 0.35
     if kind == "random":
-        vel = dict(kind="random", seed=case["idx"], scale=1.0)
+        vel = dict(kind="random", seed=case["idx"], scale=1.0, steady=True)
         mask = dict(kind="random", p=float(rng.choice([0.0, 0.1, 0.2, 0.3])), seed=case["idx"])
         store = "f4"
     elif kind == "linear_levels":
@@ -201,7 +201,7 @@ def run_case(case: dict[str, Any], wd: Path) -> dict[str, Any]:
         mask = dict(kind="sea")
         store = "f8"
     spec = dict(imax=imax, jmax=jmax, N=N, t0=C.T0, frames=[0, 3600], files=[2], vel=vel, h=hspec, mask=mask, vert=vert, store=store,
-                scalars=dict(temp=dict(kind="random", seed=case["idx"], lo=-2.0, hi=25.0), salt=dict(kind="random", seed=case["idx"] + 1, lo=0.0, hi=35.0)),
+                scalars=dict(temp=dict(kind="random", seed=case["idx"], lo=-2.0, hi=25.0, steady=True), salt=dict(kind="random", seed=case["idx"] + 1, lo=0.0, hi=35.0, steady=True)),
                 metric=dict(kind="uniform", dx=800.0, dy=800.0))
     if packed:
         spec["pack"] = dict(u=1.0e-4, v=float(rng.choice([1.0e-4, 4.0e-5, 2.5e-4])), temp=(0.001, 10.0), salt=(0.001, 17.0))
@@ -285,6 +285,16 @@ def run_case(case: dict[str, Any], wd: Path) -> dict[str, Any]:
             U, Vv = forcing.velocity(X, Y, Z)
             sc = {k: np.array(forcing.variables[k], float) for k in ("temp", "salt")}
             fu, fv = np.array(forcing.variables["u"], float), np.array(forcing.variables["v"], float)
+            if sub is None and kind == "random":
+                # same Forcing, next model step, same particle count: every particle now has another particle's depth and position
+                # (fields are steady in these worlds, so the reference stays the first frame)
+                perm = np.roll(np.arange(n), 7)
+                state["X"], state["Y"], state["Z"] = X[perm], Y[perm], Z[perm]
+                timer.update()
+                forcing.update()
+                U2, V2 = forcing.velocity(X[perm], Y[perm], Z[perm])
+                inv = np.argsort(perm)
+                second = (np.array(U2, float)[inv], np.array(V2, float)[inv], {k: np.array(forcing.variables[k], float)[inv] for k in ("temp", "salt")})
             forcing.close()
         except Exception as e:  # noqa: BLE001
             import traceback  # noqa: PLC0415
@@ -294,6 +304,15 @@ def run_case(case: dict[str, Any], wd: Path) -> dict[str, Any]:
             return C.result(V, sit, cnt, nontrivial=True, key=str(case["idx"]), sample=desc)
         results.append((np.array(U, float), np.array(Vv, float), sc, fu, fv))
     U0, V0, sc0, fu0, fv0 = results[0]
+    if kind == "random":
+        # the second update of the same Forcing must give every particle exactly what the first gave the particle it swapped with
+        U2, V2, sc2 = second
+        sit["consecutive_update_values_compared"] = n
+        d2 = max(float(np.max(np.abs(U2 - U0))), float(np.max(np.abs(V2 - V0))), float(np.max(np.abs(sc2["temp"] - sc0["temp"]))))
+        if d2 > 0:
+            k = int(np.argmax(np.abs(U2 - U0) + np.abs(V2 - V0) + np.abs(sc2["temp"] - sc0["temp"])))
+            V.append(C.viol(f"second update() of the same Forcing (same particle count, particles permuted): particle at ({X[k]},{Y[k]},Z={Z[k]}) gets ({U2[k]:.8f},{V2[k]:.8f}, temp {sc2['temp'][k]}) "
+                            f"instead of ({U0[k]:.8f},{V0[k]:.8f}, temp {sc0['temp'][k]}): per-particle data of the previous step leaks into this one", **desc))
     if np.max(np.abs(fu0 - U0)) > 1e-12 or np.max(np.abs(fv0 - V0)) > 1e-12:
         V.append(C.viol("forcing.variables['u','v'] after update() differ from forcing.velocity at the same positions", **desc))
 
